@@ -6,7 +6,7 @@ CONSTANTS
   YVals <- YA
   WVals <- W12
   LambSet <- LambA
-  G0Vals <- GA
+  G0Vals <- G2
 INVARIANT Optimal
 INVARIANT Emit
 CHECK_DEADLOCK FALSE
